@@ -294,6 +294,45 @@ pub fn nickname<const N: usize, const B: usize, const M: usize, const ENFORCE: b
     }
 }
 
+/// Quick variant with S-STAB2 (stabilize = apply twice): Nickname::enforce / compare must equal two applications of the
+/// statement's one-round function (enforcement rules, or comparison rules when CMP).
+pub fn nickname_two_rounds<const N: usize, const B: usize, const M: usize, const CMP: bool, S: Src>(s: &mut S) {
+    let x = SymStr::<N>::from_alphabet(s, &oracle::SIGMA_PIPE);
+    let mut buf = SBuf::<B>::new();
+    x.fill(&mut buf);
+    let input = buf.as_str();
+    pv_note!(s, "Nickname two applications of the {} rules on {:?}", if CMP { "comparison" } else { "enforcement" }, input);
+    let a = Arr::<M>::from_sym(&x);
+    let exp: Option<Spec<M>> = match nick_round(&a, CMP) {
+        None => None,
+        Some(Err(e)) => Some(Err(e)),
+        Some(Ok(t)) => nick_round(&t, CMP),
+    };
+    let p = Nickname::new();
+    match exp {
+        None => {
+            pv_check!(s, false, "MODEL: normalizer model capacity");
+        }
+        Some(exp) => {
+            pv_cover!(s, x.n == N && matches!(exp, Err(Error::BadCodepoint(ref i)) if i.cp != x.cs[0] as u32), "COVER: the second application rejects a code point the first one produced");
+            pv_cover!(s, x.n == N && matches!(exp, Ok(ref e) if !e.eq(&a)), "COVER: two applications change the string");
+            if !CMP {
+                let got = p.enforce(input);
+                pv_check!(s, same::<M>(&got, &exp), "PV: each application of the Nickname enforcement rules = validate, space rule, NFKC, non-empty (two applications)");
+                std::mem::forget(got);
+            } else {
+                // compare(x, x) under S-STAB2 is Ok(true) iff two applications of the comparison rules succeed
+                let got = p.compare(input, input);
+                let e: Result<bool, Error> = match exp {
+                    Ok(_) => Ok(true),
+                    Err(e) => Err(e),
+                };
+                pv_check!(s, got == e, "PV: each application of the Nickname comparison rules = validate, space rule, lowercase, NFKC (two applications)");
+            }
+        }
+    }
+}
+
 /// a second round is really needed for some inputs (witness that re-application matters)
 pub fn nickname_rounds<S: Src>(s: &mut S) {
     // U+00B4 ACUTE ACCENT: NFKC gives U+0020 U+0301, so the first round produces an interior space, and
